@@ -267,6 +267,7 @@ PROPS["C15"] = {
         {"pkg": "verifx/c15", "run": "^TestC15Governance$",
          "quick": {"checks": 150, "shards": 12, "timeout": 400},
          "thorough": {"checks": 4000, "shards": 16, "timeout": 1700}},
+        {"pkg": "verifx/c15", "run": "^TestC15KnownPreV2Vote$", "all": {"shards": 1, "timeout": 120}},
     ],
 }
 
